@@ -302,16 +302,16 @@ fn fp31_bound(_env: &Env, _src: &mut Src<'_>) -> CaseResult {
     // P[X >= k] for X ~ Bin(n, p0) with a generous p0 = 3/31 (forgery probability of the MAC
     // check is about 1/31 per attack; validation batches share one check)
     let p0: f64 = 3.0 / 31.0;
-    let mut tail = 0.0f64;
-    let mut term = (1.0 - p0).powi(n as i32); // P[X = 0]
-    for i in 0..=n {
-        if i >= k {
-            tail += term;
-        }
-        if i < n {
-            term *= (n - i) as f64 / (i + 1) as f64 * p0 / (1.0 - p0);
-        }
-    }
+    // Chernoff-Hoeffding bound, computed in log space (the direct binomial sum underflows for
+    // large n): for k/n > p0, P[X >= k] <= exp(-n * KL(k/n || p0)); for k/n <= p0 there is
+    // nothing to explain.
+    let tail = if n == 0 || (k as f64) <= p0 * n as f64 {
+        1.0
+    } else {
+        let q = k as f64 / n as f64;
+        let kl = q * (q / p0).ln() + if q < 1.0 { (1.0 - q) * ((1.0 - q) / (1.0 - p0)).ln() } else { 0.0 };
+        (-(n as f64) * kl).exp()
+    };
     let cj = json!({"fp31_attacked": n, "fp31_undetected": k, "tail_probability": tail});
     if n > 0 && tail < 1e-9 {
         return Err(violation("fp31-undetected-rate", format!("{k} of {n} additive attacks on MAC-protected Fp31 traffic went undetected; probability under a 3/31 forgery bound is {tail:e}"), cj));
